@@ -14,7 +14,8 @@ def step(device, p, s, stepsize=1, solver_options={}):
   since limited minimization limits severity of overshoots.
   '''
   # Step & Projection
-  s_next = s + stepsize * device.deriv(s, p)
+  s = np.array(s).flatten()
+  s_next = s - stepsize * np.array(device.deriv(s, p)).flatten()
   (s_next, o) = project(s_next, s, device.bounds, device.constraints)
   if not o.success:
     if o.status == 8:
